@@ -123,6 +123,19 @@ func classOf(limit int) string {
 	}
 }
 
+// growShortfall reports whether the limit lies 1..48 bytes above a doubling step, i.e. whether the
+// last growth (to the limit) can be smaller than one element: the domain of C23-F17.
+func growShortfall(limit int) bool {
+	if limit <= page {
+		return false
+	}
+	s := page
+	for 2*s < limit {
+		s *= 2
+	}
+	return limit-s >= 1 && limit-s <= 48
+}
+
 func reachableByDoubling(limit int) bool {
 	if limit <= page {
 		return true
@@ -188,7 +201,7 @@ type machine struct {
 	trace   strings.Builder
 
 	nAdd, nRefused, nNext, nEmptyNext, nReset, nGrowPanic, nGrowOverrun, nMSB int
-	sawV4, sawV6, sawBigSize                                     bool
+	sawV4, sawV6, sawBigSize                                                  bool
 }
 
 func (m *machine) used() int {
@@ -235,7 +248,7 @@ func (m *machine) add(it item) {
 		_, isRT := pan.(runtime.Error)
 		msg := fmt.Sprint(pan)
 		if isRT && strings.Contains(msg, "out of range") && strings.Contains(stack, "LocalBuffer).Add") &&
-			!reachableByDoubling(m.limit) && before+len(it.hash)+ovh >= m.limit && after == before {
+			!reachableByDoubling(m.limit) && growShortfall(m.limit) && before+len(it.hash)+ovh >= m.limit && after == before {
 			wit := fmt.Sprintf("limit %d (page %d), %d bytes in use, Add of a %d-byte key: %v", m.limit, page, before, len(it.hash), pan)
 			if evid.Known(findingGrow, wit) {
 				m.nGrowPanic++
@@ -273,7 +286,7 @@ func (m *machine) add(it item) {
 		// second face of C23-F17: the grow to an off-grid limit was too small, the bounds-checked writes still fit
 		// but the unchecked 4-byte pktSize store and the write position run up to 3 bytes past the limit
 		wit := fmt.Sprintf("limit %d (page %d), %d bytes in use, Add of a %d-byte key accepted: %d bytes in use afterwards", m.limit, page, before, len(it.hash), after)
-		if !reachableByDoubling(m.limit) && before+foot >= m.limit && after-m.effLim <= 3 {
+		if !reachableByDoubling(m.limit) && growShortfall(m.limit) && before+foot >= m.limit && after-m.effLim <= 3 {
 			if !evid.Known(findingGrow, wit) {
 				t.Fatalf("%s", evid.Sig("C23:overrun-grow-to-limit", "%s", wit))
 			}
